@@ -328,7 +328,9 @@ def arg_pool(kind, method):
         "__le__": [((o,), {}) for o in OTHERS_LIST],
         "__gt__": [((o,), {}) for o in OTHERS_LIST],
         "__ge__": [((o,), {}) for o in OTHERS_LIST],
-        "index": [((v,), {}) for v in (1, 2, None, [2, {"z": 3}], 99)],
+        "index": [((v,), {}) for v in (1, 2, None, [2, {"z": 3}], 99)] +
+                 [((v, a), {}) for v in (1, 2, None) for a in (0, 1, -1, -9, 5)] +
+                 [((v, a, b), {}) for v in (1, 2, None) for a in (0, 1, -2, -9) for b in (0, 1, 2, -1, -9, 9)],
         "count": [((v,), {}) for v in (1, 2, None, [2, {"z": 3}], 99)],
         "__contains__": [((v,), {}) for v in (1, 2, None, [2, {"z": 3}], {"a": 1}, 99)],
     }.get(method, [((), {})])
